@@ -280,7 +280,8 @@ chk('C20', 'other',
     'NOT claimed: NONMEMTableFile / ExtTable / PhiTable / CovTable parsing, row designations, renaming, results JSON '
     'round trip (pandas C reader and DataFrame indexing - no input can be symbolic); a concrete companion probe '
     '(probe:table_files, sampling) reads synthetic .ext/.cov/.cor/.coi/.phi/$TABLE files written by an independent '
-    'writer and compares values, labels and designated rows exactly. Trusted: np.linalg.inv replaced by its contract '
+    'writer and compares values, labels and designated rows exactly; probe:parse_results compares read_modelfit_results '
+    'on the pheno_real run with an independent reader of its output files; probe:results_json the JSON round trip. Trusted: np.linalg.inv replaced by its contract '
     '(unique inverse), numpy/pandas object-array semantics, exact sqrt; float rounding outside.',
     'symbolic execution of the real covariance-step derivation over numpy/pandas object arrays of z3 terms (z3 decides '
     'every branch and the defining relations)',
